@@ -130,6 +130,12 @@ pub struct Report {
     seen_sigs: HashMap<String, usize>,
 }
 
+/// Where evidence and replay files go (the committed checks use /verif; background runs from a
+/// snapshot set VERIF_OUT so that they do not overwrite the evidence of the real tree).
+pub fn out_dir() -> String {
+    std::env::var("VERIF_OUT").unwrap_or_else(|_| "/verif".to_string())
+}
+
 fn known_findings() -> Vec<Value> {
     let path = "/verif/known_findings.json";
     match std::fs::read_to_string(path) {
@@ -205,8 +211,8 @@ impl Report {
                 && f["property"] == self.property.as_str()
                 && f["signature"].as_str().map(|s| s == sig).unwrap_or(false)
         });
-        let _ = std::fs::create_dir_all("/verif/replays");
-        let path = format!("/verif/replays/{}-{}.json", self.property, sig);
+        let _ = std::fs::create_dir_all(format!("{}/replays", out_dir()));
+        let path = format!("{}/replays/{}-{}.json", out_dir(), self.property, sig);
         let payload = json!({
             "property": self.property, "clause": v.clause, "key": v.key,
             "signature": sig, "detail": v.detail, "replay": v.replay,
@@ -271,8 +277,8 @@ impl Report {
             "wall_s": (wall * 1000.0).round() / 1000.0,
             "violations": self.new_violations,
         });
-        let _ = std::fs::create_dir_all("/verif/evidence");
-        let path = format!("/verif/evidence/{}.json", self.property);
+        let _ = std::fs::create_dir_all(format!("{}/evidence", out_dir()));
+        let path = format!("{}/evidence/{}.json", out_dir(), self.property);
         if let Err(e) = std::fs::write(&path, serde_json::to_string_pretty(&ev).unwrap()) {
             machinery(&format!("cannot write {path}: {e}"));
         }
